@@ -391,7 +391,7 @@ def replay(payload):
 def run(tier, seed):
     res = Result("C19")
     res.functions = ["xeofs.single.opa:OPA.__init__", "OPA._fit_algorithm", "OPA._Ctau", "OPA._compute_matrix_inverse"]
-    res.assumptions = ["inner EOF under its contract (C01) with retained singular values > 0; Decomposer under SVD_k; for the Gram matrix C0 the PSD lemma (U = V, C0 = U s U^H) is assumed",
+    res.assumptions = ["inner EOF under its contract (C01) with retained singular values > 0; Decomposer under SVD_k; C0 is the covariance of uncorrelated principal components, hence diagonal with positive descending entries (this part is checked: the normaliser re-derives diagonality whenever a power of it is taken); its SVD is then forced to U = V = a diagonal sign matrix, s = C0 when the retained PCA singular values are distinct (assumed)",
                        "xarray: shift(-t).dropna keeps the rows t.. under the labels of the leading rows and xr.dot aligns on common labels (modelled exactly for prefixes)",
                        "the loop over lags is proved for every tau_max >= 1 by the Hoare rule (invariant M = 1/2 C_0 + sum_{t<tau} w_t C_t, mechanical rewrite of loop 0, vf/sym/looprule.py) and additionally executed for the concrete tau_max in {1,2,3}; termination is not proved; the values of the decorrelation times against each series' own autocorrelation: bounded",
                        "Rayleigh-Ritz (optimality of the leading eigenvector) is an axiom; bounded runs probe it with random combinations"]
